@@ -4,7 +4,7 @@ The model rows are validated against the real interpreter by c18.py (part B)."""
 from .catalogue import Entry
 
 ROUTES = ("falloff", "sys_exit", "sys_exit_after_caught_exit0", "sys_exit_after_caught_exit3", "raise_systemexit", "exception", "keyboardinterrupt",
-          "falloff_after_caught_exit0", "falloff_after_caught_exit3", "exception_after_caught_exit0", "keyboardinterrupt_after_caught_exit0")
+          "exception_falsy", "falloff_after_caught_exit0", "falloff_after_caught_exit3", "exception_after_caught_exit0", "keyboardinterrupt_after_caught_exit0")
 KINDS = ("none", "int", "true", "false", "str_empty", "str_x", "float", "list")
 
 
@@ -38,6 +38,13 @@ def status_model(route, kind, c):
 
 class Boom(Exception):
     pass
+
+
+class EmptyReport(Exception):
+    """an exception that is falsy (a container-style error with no entries): still an uncaught exception"""
+
+    def __len__(self):
+        return 0
 
 
 def run_event(k, route, kind, autoprove, has_ps):
@@ -90,6 +97,8 @@ def run_event(k, route, kind, autoprove, has_ps):
                 pass
         elif route == "raise_systemexit":
             pass                           # SystemExit raised directly: neither sys.exit nor sys.excepthook is involved
+        elif route == "exception_falsy":
+            ov.excepthook(EmptyReport, EmptyReport(), None)
         elif route0 == "exception":
             ov.excepthook(Boom, Boom("x"), None)
         elif route0 == "keyboardinterrupt":
